@@ -124,7 +124,9 @@ def run(pid, tier, args):
                 nex += 1
                 o = p[2]
                 if o.startswith("valid"):
-                    if o != "valid ok":
+                    if "BADERR" in o or o.startswith(("valid panic", "valid hang")):
+                        v.violation("example grammar %s on its valid input %s: %s" % (p[0], p[1], o), {"property": pid, "kind": "example", "grammar": p[0], "input_quoted": p[1], "real": o})
+                    elif o != "valid ok":
                         raise Infra("example grammar %s rejects its own valid input %s: %s" % (p[0], p[1], o))
                     continue
                 if "BADERR" in o or o.startswith(("panic", "hang")):
